@@ -20,6 +20,9 @@ def first_kind(c):
     return m.group(1) if m else ""
 
 
+MISSED = []
+
+
 def seeded_table():
     res_p = os.path.join(VERIF, "seeded", "RESULTS.json")
     res = json.load(open(res_p)) if os.path.exists(res_p) else {}
@@ -40,6 +43,8 @@ def seeded_table():
         n += 1
         if c and c.get("rc") == 1:
             caught += 1
+        else:
+            MISSED.append(sid)
         what = esc((meta.get("breaks") or "")[:230]) + " — *needs:* " + esc((meta.get("needs_to_manifest") or "")[:170])
         rows.append("| `seeded/%s` | %s | %s | %s | `%s` |" % (sid, prop, what, "; ".join(verdicts) or "not run", esc(first_kind(c or {}))))
     return "\n".join(rows), n, caught
@@ -77,14 +82,16 @@ def main():
             "%d changes kept under `seeded/` (each: `patch.diff`, `demo.py`, `meta.json`); every one was confirmed by me in a scratch worktree "
             "(patch applies, 308 tests pass, the demonstration fails with it and passes without it) before it was kept.  "
             "**%d of %d are caught by the quick tier of the property's own check** on the current machinery "
-            "(`python3 tools/seed.py run all quick`, results in `seeded/RESULTS.json`).  The others: C01-16, C05-14 (caught by C06, which owns keyword-shaped "
-            "names), C02-4 (C10), C10-15 (C19, which owns the command line), C18-16 (C01 / C17), and C05-16, C17-12, which lie outside their property as stated "
-            "(7.1) and are not caught.  Four more changes no longer manifest on the repaired tree and are listed without a verdict.\n\n%s\n"
+            "(results in `seeded/RESULTS.json`: `tools/seed.py run` applies the change to `/repo` itself and restores it; `tools/seed.py tryrec` - entries with a `where` field - "
+            "does the same on a scratch worktree of `/repo`'s HEAD handed to the check through `VF_REPO`, so that several can run side by side; entries of the last round were recorded that way, "
+            "entries not re-run in the last round keep the verdict recorded on the earlier machinery).  Not caught by the property's own check: %s.  Of these C01-16, C05-14 are caught by C06 (which owns keyword-shaped "
+            "names), C02-4 by C10, C10-15 by C19 (which owns the command line), C18-16 by C01 / C17; C05-16, C17-12 lie outside their property as stated "
+            "(7.1) and are not caught.  Changes that no longer manifest on the repaired tree are listed without a verdict.\n\n%s\n"
             "\n### 7.3 Own mutants (`mutants/specs.py`)\n\n"
             "%d (mutant, check) pairs; %d caught.  %d pairs belong to mutants that keep the 308 tests green, of which %d are caught; the others "
             "are kept because they exercise the monitors, but the suite would catch them too.  Pairs marked *not caught* with a "
             "`control` / `equivalent` note are deliberate negative controls: the property still holds under them and the check must stay silent.\n\n%s\n"
-            % (sn, sc, sn, st, mn, mc, mv, mvc, mt))
+            % (sn, sc, sn, ", ".join(MISSED) or "none", st, mn, mc, mv, mvc, mt))
     p = os.path.join(VERIF, "DESIGN.md")
     s = open(p).read()
     a, b = "<!-- TABLES:BEGIN -->", "<!-- TABLES:END -->"
